@@ -908,7 +908,7 @@ func (proxy *PgProxy) handleParameterDescription(ctx context.Context, packet *Pa
 	}
 	changed := false
 	for i := 0; i < len(parameterDescription.ParameterOIDs); i++ {
-		setting := items[i]
+		setting, _ := encryptor.GetPlaceholderSetting(items, i)
 		if setting == nil {
 			continue
 		}
@@ -1145,7 +1145,7 @@ func replaceOIDsInParsePackets(ctx context.Context, packet *PacketHandler, prepa
 	}
 	changed := false
 	for i := range preparedStatement.params {
-		setting := items[i]
+		setting, _ := encryptor.GetPlaceholderSetting(items, i)
 		if setting == nil {
 			continue
 		}
